@@ -1,0 +1,47 @@
+//go:build verif
+
+// Package vhook holds verification hooks. With the "verif" build tag the
+// functions forward to callbacks installed by a test harness.
+package vhook
+
+import "sync/atomic"
+
+type fsFunc func(kind, path string, n int64)
+type pauseFunc func(point string)
+
+var fsHook atomic.Pointer[fsFunc]
+var pauseHook atomic.Pointer[pauseFunc]
+
+// SetFS installs (or with nil removes) the file-system event callback.
+func SetFS(f func(kind, path string, n int64)) {
+	if f == nil {
+		fsHook.Store(nil)
+		return
+	}
+	ff := fsFunc(f)
+	fsHook.Store(&ff)
+}
+
+// SetPause installs (or with nil removes) the pause-point callback.
+func SetPause(f func(point string)) {
+	if f == nil {
+		pauseHook.Store(nil)
+		return
+	}
+	ff := pauseFunc(f)
+	pauseHook.Store(&ff)
+}
+
+// FS is called after a file-system mutation succeeded.
+func FS(kind, path string, n int64) {
+	if f := fsHook.Load(); f != nil {
+		(*f)(kind, path, n)
+	}
+}
+
+// Pause marks a point where a test schedule may hold a goroutine.
+func Pause(point string) {
+	if f := pauseHook.Load(); f != nil {
+		(*f)(point)
+	}
+}
